@@ -95,7 +95,7 @@ func c16prop(r *simkit.Run) {
 
 	fault := "none"
 	if rapid.IntRange(0, 2).Draw(rt, "fault?") > 0 {
-		fault = rapid.SampledFrom([]string{"refused", "dial-timeout", "close-before-head", "reset-before-head", "close-in-head", "reset-in-head", "garbage-head",
+		fault = rapid.SampledFrom([]string{"refused", "dial-timeout", "dial-no-descriptors", "dial-dns-servfail", "dial-dns-notfound", "close-before-head", "reset-before-head", "close-in-head", "reset-in-head", "garbage-head",
 			"close-in-body", "reset-in-body", "header-timeout", "deadline-timeout", "client-gone-before-response", "client-gone-mid-body"}).Draw(rt, "fault")
 	}
 	if fault == "client-gone-mid-body" {
@@ -158,6 +158,8 @@ func c16prop(r *simkit.Run) {
 		spec.plan.dial = "refused"
 	case "dial-timeout":
 		spec.plan.dial = "timeout"
+	case "dial-no-descriptors", "dial-dns-servfail", "dial-dns-notfound":
+		spec.plan.dial = strings.TrimPrefix(fault, "dial-")
 	case "close-before-head":
 		spec.plan.cutAt, spec.plan.then = 0, "close"
 	case "reset-before-head":
@@ -250,7 +252,7 @@ func c16prop(r *simkit.Run) {
 		}
 		r.Fail("gateway-status", "%s: the client got %d, expected %v %s", what, res.status, ok, ctxt)
 	}
-	if reqBody != nil && fault != "refused" && fault != "dial-timeout" && res.backendReq != nil {
+	if reqBody != nil && fault != "refused" && !strings.HasPrefix(fault, "dial-") && res.backendReq != nil {
 		if got := decodeBody(res.backendReq); !bytes.Equal(got, reqBody) {
 			r.Fail("request-body", "the backend received a request body of %d bytes, the client sent %d (first difference at %d) %s", len(got), len(reqBody), firstDiff(got, reqBody), ctxt)
 		}
@@ -279,7 +281,8 @@ func c16prop(r *simkit.Run) {
 		if res.bodyErr != nil || !bytes.Equal(res.body, body) {
 			r.Fail("relay-body", "client read %d bytes (err %v), backend sent %d; first difference at %d %s [proxy recorded %d, handler returned=%v, late probes %d, server log %q]", len(res.body), res.bodyErr, len(body), firstDiff(res.body, body), ctxt, res.recorded, res.handlerDone, res.lateProbes, res.serverLog)
 		}
-	case "refused", "close-before-head", "reset-before-head":
+	case "refused", "close-before-head", "reset-before-head", "dial-no-descriptors", "dial-dns-servfail", "dial-dns-notfound":
+		// whatever keeps the proxy from reaching the backend, as long as nothing timed out
 		expectStatus("backend unreachable or failed before responding", 502)
 		r.Fault(fault)
 	case "dial-timeout":
